@@ -131,7 +131,14 @@ U('dyn_find', fam_dyn, 'Dyn_find', ['C05', 'C16', 'C17'], inline=['Item_deleted'
 U('dyn_ceil_log2', fam_dyn, 'Dyn_ceil_log2', ['C15', 'C17'], decls=['dyn_ghost'], insts=DYN_Q, spec=('dyn.spec',))
 U('dyn_max_size', fam_dyn, 'Dyn_max_size', ['C15', 'C17'], inline=['Dyn_ceil_log2'], decls=['dyn_ghost'], insts=DYN_Q, spec=('dyn.spec',))
 
-# dyn_pairwise_merge: contract kept in spec/dyn.spec, unit not registered: did not finish within 30 min / 7 GB per process even with 4 enumerated levels (DESIGN 5/C15)
+U('dyn_pairwise_merge', fam_dyn, 'Dyn_pairwise_merge', ['C15', 'C05', 'C17'], inline=['Dyn_level', 'Dyn_pgm', 'Dyn_has_pgm', 'Dyn_max_fully_allocated_level'],
+  assumed=['Dyn_merge', 'pgmv_copy_Item', 'PGMType_build'], decls=['dyn_ghost', 'dyn_merge_ghost', 'dyn_mergeview'], lemmas=['lemma_merge_fits'],
+  insts=DYN_Q, thorough_insts=DYN_ALL, spec=('dyn.spec',), timeout=1800, partition=16, mem_gb=12, defines=['NLEV=4'], solver='kissat',
+  assumptions=[DYN_NOTE, 'quick tier: at most 4 used levels above the buffer (NLEV=4); the thorough tier runs the same contract with NLEV=32 = the size of the levels vector (unit dyn_pairwise_merge_full)', 'size accounting of the merge cascade (lemma_merge_fits) is established by insert (proved there as the C15 capacity assertion)'])
+U('dyn_pairwise_merge_full', fam_dyn, 'Dyn_pairwise_merge', ['C15', 'C05', 'C17'], thorough_only_props=['C15', 'C05', 'C17'], inline=['Dyn_level', 'Dyn_pgm', 'Dyn_has_pgm', 'Dyn_max_fully_allocated_level'],
+  assumed=['Dyn_merge', 'pgmv_copy_Item', 'PGMType_build'], decls=['dyn_ghost', 'dyn_merge_ghost', 'dyn_mergeview'], lemmas=['lemma_merge_fits'],
+  insts=DYN_Q, thorough_insts=DYN_ALL, spec=('dyn.spec',), timeout=3000, partition=16, mem_gb=12, defines=['NLEV=32'], solver='kissat',
+  assumptions=[DYN_NOTE, 'levels enumerated: NLEV=32 = the size of the levels vector', 'size accounting of the merge cascade (lemma_merge_fits) is established by insert (proved there as the C15 capacity assertion)'])
 
 
 # ---------------------------------------------------------------------------------------------------
@@ -200,8 +207,10 @@ U('compressed_search', fam_compressed, 'Compressed_search', ['C08', 'C16', 'C17'
 PLM_Q = [fam_plm.pinst('uint64_t'), fam_plm.pinst('int32_t', 'int32_t')]
 U('oplm_ctor', fam_plm, 'OPLM_ctor', ['C20', 'C17'], decls=['plm_ghost'], insts=PLM_Q, spec=('plm.spec',))
 U('oplm_reset', fam_plm, 'OPLM_reset', ['C03', 'C17'], decls=['plm_ghost'], insts=PLM_Q[:1], spec=('plm.spec',))
-# oplm_add_point: contract (control part, 4 loop contracts, C20 guard) kept in spec/plm.spec; with 48 obligation groups several groups did not finish in 900 s each
-# (symbolic-capacity hull vectors + havoc of whole objects); not registered (DESIGN S.4)
+U('oplm_add_point', fam_plm, 'OPLM_add_point', ['CXX_not_registered_yet'], assumed=['Slope_lt', 'Slope_gt', 'OPLM_cross'], decls=['plm_ghost'], insts=PLM_Q, spec=('plm.spec',),
+  defines=['PGMV_STUB_SLOPE_CMP'], timeout=1800, partition=24, mem_gb=10, solver='kissat',
+  assumptions=['Slope comparisons / cross products are replaced by unconstrained stubs: the control and memory-safety obligations hold for every outcome of the geometry',
+               'geo-1/geo-2 (epsilon-accuracy and maximality of the hull) are checked only by the bounded native link'])
 
 # md_bigmin: contract kept in spec/md.spec (case split on the highest bit, unwind 34); under dfcc instrumentation every case ran out of memory (8 GB) at once,
 # unlike the plain-harness probe of the design round (77 s); not registered - bigmin stays an assumed contract of md_advance (DESIGN S.4)
@@ -257,9 +266,9 @@ U('md_ctor', fam_md, 'RangeIterator_ctor', ['C13', 'C17', 'C16'], inline=['MD_bo
   lemmas=['lemma_data_sorted', 'lemma_rank', 'lemma_box_range', 'pgmv_lower_bound_T'], insts=MD_Q, thorough_insts=MD_ALL, spec=('md.spec',),
   assumptions=[MD_NOTE, SEARCH_NOTE], timeout=1200)
 
-U('dyn_insert', fam_dyn, 'Dyn_insert', ['C15', 'C17'], thorough_only_props=['C15', 'C17'], inline=['Dyn_level', 'Dyn_max_size', 'Dyn_ceil_log2'], stubs=['Dyn_lower_bound_bl'], assumed=['Dyn_pairwise_merge'],
-  decls=['dyn_ghost', 'dyn_merge_ghost', 'dyn_insert_ghost'], lemmas=['lemma_level_size', 'vec_Item_insert'], insts=DYN_Q, spec=('dyn.spec',), timeout=3600, partition=48, mem_gb=8, defines=['NLEV=4'],
-  assumptions=[DYN_NOTE, 'std::vector::insert / emplace_back of the level vectors replaced by assumed contracts [A]', 'at most 4 used levels above the buffer (NLEV=4, enumerated fresh level arrays); (used_levels+1)*log2(base) <= 50 (sizes below 2^50); constant vector capacities', 'thorough tier only: the postcondition group alone needs about 20 minutes of SAT time'])
+U('dyn_insert', fam_dyn, 'Dyn_insert', ['C15', 'C17'], inline=['Dyn_level', 'Dyn_max_size', 'Dyn_ceil_log2'], stubs=['Dyn_lower_bound_bl'], assumed=['Dyn_pairwise_merge'],
+  decls=['dyn_ghost', 'dyn_merge_ghost', 'dyn_insert_ghost'], lemmas=['lemma_level_size', 'vec_Item_insert'], insts=DYN_Q, spec=('dyn.spec',), timeout=1800, partition=16, mem_gb=8, solver='kissat', defines=['NLEV=32'],
+  assumptions=[DYN_NOTE, 'std::vector::insert / emplace_back of the level vectors replaced by assumed contracts [A]', 'at most 32 used levels above the buffer (NLEV=32 = the size of the levels vector, enumerated fresh level arrays); (used_levels+1)*log2(base) <= 50 (sizes below 2^50); constant vector capacities'])
 
 U('mapped_serialize', fam_mapped, 'Mapped_serialize_and_map', ['C12', 'C17'], assumed=['pgmv_fstream_open', 'pgmv_fstream_seekp', 'pgmv_write_member', 'pgmv_write_container', 'pgmv_map_file'],
   decls=['mapped_ghost', 'ser_ghost'], insts=[kinst('uint64_t'), kinst('int32_t')], thorough_insts=MAPPED_ALL, spec=('mapped.spec',), mem_gb=20, timeout=900, drop_checks=['--conversion-check'],
